@@ -80,6 +80,14 @@ fn build(
                 idle_flush_interval_ms: 0,
             }
         }
+        // who may choose the read policy does not change what a safe lease window is (the leader lease also backs the
+        // linearizable fast path)
+        "noovr" => c.read_consistency.allow_client_override = false,
+        "noovr_ev" => {
+            c.read_consistency.allow_client_override = false;
+            c.read_consistency.default_policy = d_engine_core::config::ReadConsistencyPolicy::EventualConsistency;
+        }
+        "leasedef" => c.read_consistency.default_policy = d_engine_core::config::ReadConsistencyPolicy::LeaseRead,
         o => panic!("unknown scenario {o}"),
     }
     c
